@@ -1,6 +1,6 @@
 (* C05 driver.  One program per line (whitespace separated tokens):
      block := "(" (id stmt)* ")"
-     stmt  := L x q | A x | U x | AF x | UF x | F f np p1..pnp block | C f n | O block | I block block | W block | P block
+     stmt  := L x q | A x | U x | AF x | UF x | F f np p1..pnp block | FA x block | C f n | O block | I block block | W block | P block
             | R block | S els "[" (line value block)* "]" block | B | N | T | J l | G l | D block | X len k | V t v viaconcept | VF t
    (q: 0 var 1 const 2 comptime; len,k,v: signed hex).
    Output: <offenders id:kind ...> TAB <rule_ok flow names labels consts as 0/1> *)
@@ -32,6 +32,7 @@ let parse (toks : string array) : block =
     | "F" -> let f = num () in let np = int_of_string (next ()) in
       let rec ps i = if i = 0 then [] else let p = num () in p :: ps (i - 1) in
       let p = ps np in let b = block () in Func (f, p, b)
+    | "FA" -> let x = num () in let b = block () in FuncAssign (x, b)
     | "C" -> let f = num () in let n = num () in Call (f, n)
     | "O" -> Do (block ())
     | "I" -> let t = block () in let e = block () in If (t, e)
